@@ -259,6 +259,7 @@ def run(ctx):
     _run_rules(ctx)
     from .. import boundaries
     boundaries.check(ctx, 'C14.RB', 'C14')
+    boundaries.check_inits(ctx, 'C14.RI', 'C14')
     boundaries.check_writes(ctx, 'C14.RW', 'C14')
     boundaries.check_guards(ctx, 'C14.RG', 'C14')
     boundaries.check_calls(ctx, 'C14.RC', 'C14')
